@@ -134,7 +134,55 @@ class Check:
 
     # ---- verdicts --------------------------------------------------------------------------
     def discharge(self, timeout_ms=None, parallel=True):
+        """obligations are discharged in chunks; as soon as a counterexample of a chunk has been reproduced on the real code the verdict is
+        VIOLATION and the remaining obligations are not sent to the solvers (on a tree where the property holds every chunk is processed)"""
         pending = [o for o in self.obligs if o.status is None and not isinstance(o, _Stub)]
+        # probe: a few obligations under a short time limit.  A refuted / undecided one is handed to its replay recipe; if the real code
+        # reproduces it the verdict is VIOLATION at once.  Otherwise the probe leaves no trace and everything is discharged normally.
+        probe = [o for o in pending if not o.canary and not o.witness and (o.meta.get("finding") or o.meta.get("fallback"))][:12]
+        if len(pending) > 24 and probe and not os.environ.get("SYMX_NOPROBE"):
+            smt.discharge(probe, 6000, parallel=parallel, portfolio=getattr(self, "portfolio", None) or smt.PORTFOLIO)
+            n_inc, n_find, n_rep = len(self.inconclusive), len(self.findings), getattr(self, "_replayed", 0)
+            for ob in probe:
+                if ob.status != "unsat":
+                    try:
+                        f = (ob.meta.get("finding") if ob.status == "sat" else (ob.meta.get("fallback") or ob.meta.get("finding")))(ob)
+                    except Exception:
+                        f = None
+                    if f is not None:
+                        self.candidate(f)
+            self._replayed = n_find
+            self.replay_all()
+            if self.violations:
+                for ob in pending:
+                    if ob.status is None:
+                        ob.status = "skipped"
+                self.note("probe: a counterexample was reproduced on the real code; %d obligations not sent to the solvers" % sum(1 for o in pending if o.status == "skipped"))
+                return
+            del self.inconclusive[n_inc:]
+            del self.findings[n_find:]
+            self._replayed = n_rep
+            for ob in probe:
+                if ob.status != "unsat":
+                    ob.status, ob.model = None, None
+            pending = [o for o in pending if o.status is None]
+        chunk = int(os.environ.get("SYMX_CHUNK", "16"))      # first chunk small (a broken tree is recognised quickly), then doubling
+        i = 0
+        while i < len(pending):
+            part = pending[i:i + chunk]
+            i += chunk
+            chunk *= 2
+            self._discharge_part(part, timeout_ms, parallel)
+            if len(pending) > i and len(self.findings) > getattr(self, "_replayed", 0):
+                self.replay_all()
+                if self.violations:
+                    rest = pending[i:]
+                    for ob in rest:
+                        ob.status = "skipped"
+                    self.note("%d obligations not sent to the solvers: a counterexample had already been reproduced on the real code" % len(rest))
+                    break
+
+    def _discharge_part(self, pending, timeout_ms=None, parallel=True):
         smt.discharge(pending, timeout_ms or self.solver_timeout_ms, parallel=parallel, portfolio=getattr(self, "portfolio", None) or smt.PORTFOLIO)
         if os.environ.get("SYMX_VERBOSE"):
             for ob in pending:
@@ -190,14 +238,23 @@ class Check:
 
     def replay_all(self):
         os.makedirs(os.path.join(EVID, "replay"), exist_ok=True)
-        seen = set()
-        for f in self.findings:
+        seen = self.__dict__.setdefault("_seen_keys", set())
+        cache = self.__dict__.setdefault("_replay_cache", {})
+        start = getattr(self, "_replayed", 0)
+        self._replayed = len(self.findings)
+        for f in self.findings[start:]:
             fn = self.replays.get(f.harness)
             if fn is None:
                 self.inconc("no replay function %s" % f.harness)
                 continue
             try:
-                res = fn(f.inputs)
+                ck_ = f.harness + json.dumps({k: v for k, v in f.inputs.items() if k != "what"}, sort_keys=True, default=str) if isinstance(f.inputs, dict) else None
+                if ck_ is not None and ck_ in cache:
+                    res = cache[ck_]
+                else:
+                    res = fn(f.inputs)
+                    if ck_ is not None:
+                        cache[ck_] = res
             except Exception as e:
                 self.inconc("replay %s crashed: %r" % (f.harness, e))
                 self.note(traceback.format_exc())
@@ -358,6 +415,10 @@ def run_parallel(ck, tasks, jobs=None):
                 pass
         finally:
             conn.close()
+            try:
+                smt.shutdown()
+            except BaseException:
+                pass
             os._exit(0)
 
     while pending or running:
@@ -382,9 +443,27 @@ def run_parallel(ck, tasks, jobs=None):
         for idx in done:
             pr, pc, name = running.pop(idx)
             pr.join(5)
+        if any(isinstance(results.get(i), dict) and results[i].get("violations") for i in done) and (running or pending):
+            # a harness has reproduced a counterexample on the real code: the verdict is VIOLATION; the other harnesses are stopped
+            for idx, (pr, pc, name) in list(running.items()):
+                try:
+                    pr.terminate()
+                    pr.join(2)
+                    if pr.is_alive():
+                        pr.kill()
+                except Exception:
+                    pass
+                results[idx] = {"stopped": name}
+            for idx, (name, fn) in pending:
+                results[idx] = {"stopped": name}
+            running.clear()
+            pending[:] = []
     for idx in sorted(results):
         r = results[idx]
         name = tasks[idx][0]
+        if "stopped" in r:
+            ck.note("harness %s stopped: another harness had already reproduced a violation on the real code" % name)
+            continue
         if "crash" in r:
             ck.inconc("harness %s: %s" % (name, r["crash"]))
             continue
